@@ -15,6 +15,7 @@ hash-ordered containers or ambient state could leak into the generator's output:
   templates (regex over gapic/templates/** and gapic/ads-templates/**)
     t-sort      `| sort`, `| sort(...)`, `| dictsort`, `| unique`, `filter sort_lines` / `| sort_lines`
     t-setloop   `{% for … in EXPR %}` / `{% if … in EXPR %}` / `{{ EXPR }}` where EXPR mentions a set-valued attribute
+    t-dictloop  `{% for … in EXPR.items() / .keys() / .values() %}` without a sort: the order is the dict's insertion order
                 (tagged `<template in sort_lines>` when enclosed by a `{% filter sort_lines %}` block)
     t-impure    Jinja `|random`, `|shuffle`, `lipsum()`, `now()`
 
@@ -299,6 +300,7 @@ def set_valued_names(trees):
 
 T_SORT = re.compile(r"\|\s*(sort\s*\([^)]*\)|sort\b(?!_)|dictsort\s*(?:\([^)]*\))?|unique\s*(?:\([^)]*\))?|sort_lines)|^\s*filter\s+(sort_lines)")
 T_TAG = re.compile(r"\{[%{]-?(.*?)-?[%}]\}", re.S)
+T_DICTLOOP = re.compile(r"for\b.*\bin\b.*\.(items|keys|values)\(\)")
 
 
 def scan_templates(root, set_attrs):
@@ -341,6 +343,10 @@ def scan_templates(root, set_attrs):
                     if words & set_attrs:
                         where = "<template in sort_lines>" if "sort_lines" in depth else "<template>"
                         sites.append((rel, where, "t-setloop", tag[:140]))
+                    elif m.group(0).startswith("{%") and T_DICTLOOP.match(tag):
+                        # an UNSORTED loop over a dict view: the emitted order is the dict's insertion order
+                        where = "<template in sort_lines>" if "sort_lines" in depth else "<template>"
+                        sites.append((rel, where, "t-dictloop", tag[:140]))
     return sites
 
 
